@@ -356,7 +356,8 @@ Theorem insert_refines {F} (p : polyline F) (pts : list (vec3 F)) (idx : list Z)
   c_insert p pts idx = s_insert p pts idx.
 Proof.
   unfold c_insert, s_insert. destruct (length pts =? length idx)%nat eqn:E; cbn [negb]; [|reflexivity].
-  apply Nat.eqb_eq in E. destruct (wrap_all (length (pv p)) idx) as [w|] eqn:Ew; [|reflexivity].
+  apply Nat.eqb_eq in E. unfold wrap_indices. destruct (below_range (length (pv p)) idx); [reflexivity|].
+  destruct (wrap_all (length (pv p)) idx) as [w|] eqn:Ew; [|reflexivity].
   apply wrap_all_length in Ew.
   rewrite np_insert_refines by congruence. rewrite orig_map_refines, ins_map_refines. reflexivity.
 Qed.
